@@ -278,6 +278,27 @@ func init() {
 		Old: "func byExpires(a, b *object.Object) bool {\n\tif a.Expires() < b.Expires() {", New: "func byExpires(a, b *object.Object) bool {\n\tif a.ID() < b.ID() {\n\t\treturn true\n\t}\n\tif a.Expires() < b.Expires() {",
 		Expect: "R14.sweep-stop", Key: "byExpires-deadline-first", Why: "the expiry index is no longer ordered by deadline"})
 
+	// ---- R4 ----------------------------------------------------------------
+	mutant(&Mutant{Name: "loadaof-no-seek", Props: []string{"C04"}, File: fAOF,
+		Old: "\t\t\t\tif _, err := s.aof.Seek(int64(s.aofsz), 0); err != nil {\n\t\t\t\t\treturn err\n\t\t\t\t}\n", New: "",
+		Expect: "R4.size-accounting", Key: "tail-repair", Why: "after the truncate the next append lands beyond the cut"})
+	mutant(&Mutant{Name: "loadaof-truncate-before-adjust", Props: []string{"C04"}, File: fAOF,
+		Old: "\t\t\t\ts.aofsz -= len(buf)\n\t\t\t\tif err := s.aof.Truncate(int64(s.aofsz)); err != nil {\n\t\t\t\t\treturn err\n\t\t\t\t}",
+		New: "\t\t\t\tif err := s.aof.Truncate(int64(s.aofsz)); err != nil {\n\t\t\t\t\treturn err\n\t\t\t\t}\n\t\t\t\ts.aofsz -= len(buf)",
+		Expect: "R4.size-accounting", Key: "truncate-at-boundary", Why: "the torn bytes stay in the file"})
+	mutant(&Mutant{Name: "loadaof-truncate-error-dropped", Props: []string{"C04"}, File: fAOF,
+		Old: "\t\t\t\tif err := s.aof.Truncate(int64(s.aofsz)); err != nil {\n\t\t\t\t\treturn err\n\t\t\t\t}", New: "\t\t\t\ts.aof.Truncate(int64(s.aofsz))",
+		Expect: "R4.size-accounting", Key: "truncate-error-returned", Why: "a failed repair goes unnoticed"})
+	mutant(&Mutant{Name: "loadaof-no-nul-skip", Props: []string{"C04"}, File: fAOF,
+		Old: "\t\t\tif len(data) > 0 && data[0] == 0 {\n\t\t\t\t// Zeros found in AOF file (issue #230).\n\t\t\t\t// Just ignore it and move the next byte.\n\t\t\t\tdata = data[1:]\n\t\t\t\tcontinue\n\t\t\t}\n", New: "",
+		Expect: "R4.nul-skip", Key: "parse-after-nul-test", Why: "zero padding is parsed as a command"})
+	mutant(&Mutant{Name: "loadaof-no-carry", Props: []string{"C04"}, File: fAOF,
+		Old: "\t\tif len(data) > 0 {\n\t\t\tbuf = append(buf[:0], data...)\n\t\t} else if len(buf) > 0 {", New: "\t\tif len(data) > 1<<20 {\n\t\t\tbuf = append(buf[:0], data...)\n\t\t} else if len(buf) > 0 {",
+		Expect: "R4.carry", Key: "remainder-carried", Why: "a command split across two reads is dropped"})
+	mutant(&Mutant{Name: "loadaof-count-after-parse", Props: []string{"C04"}, File: fAOF,
+		Old: "\t\ts.aofsz += n\n\t\tdata := packet[:n]", New: "\t\tdata := packet[:n]",
+		Expect: "R4.size-accounting", Key: "read-counted-before-parse", Why: "aofsz stays 0 after start-up"})
+
 	// ---- neutral variants --------------------------------------------------
 	mutant(&Mutant{Name: "neutral-rename-write-flag", Props: []string{"C03", "C07", "C15"}, Neutral: true, File: fScripts,
 		Old: "func (s *Server) luaTile38NonAtomic(msg *Message) (resp.Value, error) {\n\tvar write bool\n", New: "func (s *Server) luaTile38NonAtomic(msg *Message) (resp.Value, error) {\n\tvar write bool\n\t_ = \"neutral\"\n",
